@@ -1,3 +1,80 @@
 package main
 
-func dispatch3(mode string, args []string) bool { return false }
+import (
+	"encoding/hex"
+	"fmt"
+	"os"
+	"strings"
+
+	"verif/harness/vapp"
+)
+
+func dispatch3(mode string, args []string) bool {
+	switch mode {
+	case "dump":
+		dumpMode(args)
+	default:
+		return dispatch4(mode, args)
+	}
+	return true
+}
+
+// dumpMode: run one scenario of a family and print what happened and the final tree
+// (development aid for the projector).
+func dumpMode(args []string) {
+	c, fs := flags("dump", args)
+	idx := 0
+	if fs.NArg() > 0 {
+		fmt.Sscan(fs.Arg(0), &idx)
+	}
+	sc := makeScenario(c, idx)
+	dir, _ := os.MkdirTemp("", "vdump")
+	defer os.RemoveAll(dir)
+	tr, err := vapp.Materialise(sc, vapp.RunOpts{Identity: "v1", WantState: true, Dir: dir})
+	if err != nil {
+		fmt.Println("error:", err)
+		os.Exit(1)
+	}
+	for _, b := range tr.Blocks {
+		fmt.Printf("block %d proposer %s updates %v set %v\n", b.H, b.Proposer, b.Updates, b.Set)
+		for _, t := range b.Txs {
+			cc, dc, lg := -1, -1, ""
+			if t.Check != nil {
+				cc = int(t.Check.Code)
+				lg = t.Check.Log
+			}
+			if t.Deliver != nil {
+				dc = int(t.Deliver.Code)
+				if t.Deliver.Log != "" {
+					lg = t.Deliver.Log
+				}
+			}
+			fmt.Printf("   %-16s %v class=%q path=%s check=%d deliver=%d %s\n", t.Req.Kind, t.Req.A, t.Req.Class, t.Path, cc, dc, lg)
+		}
+	}
+	if tr.Dead {
+		fmt.Println("DEAD at", tr.DeadAt, "exit", tr.Exit)
+		return
+	}
+	// re-open to dump the tree
+	p, _, err := vapp.StartProc(vapp.ReplicaConfig{Dir: dir, Identity: "v1"}, sc.Genesis)
+	if err != nil {
+		fmt.Println("reopen:", err)
+		return
+	}
+	rep := p.Call(&vapp.Cmd{Op: "dump"})
+	for _, kv := range rep.Dump {
+		k, _ := hex.DecodeString(kv[0])
+		v, _ := hex.DecodeString(kv[1])
+		ks := printable(k)
+		if strings.HasPrefix(ks, "g_") || strings.HasPrefix(ks, "0x675f") || strings.HasPrefix(ks, "es__svb") {
+			continue
+		}
+		vs := printable(v)
+		if len(vs) > 400 {
+			vs = vs[:400] + "..."
+		}
+		fmt.Printf("%s => %s\n", ks, vs)
+	}
+	p.Stop()
+}
